@@ -51,6 +51,24 @@ def hkl(rng, box=30):
             return [int(h[0]), int(h[1]), int(h[2])]
 
 
+def as_form(x, k):
+    """the same numbers in another container: nested list / nested tuple / float ndarray / integer ndarray (when integral).
+    Callers pass what they have; every property is about the values, not the container."""
+    a = np.asarray(x)
+    k = k % 4
+    if k == 0:
+        return a.astype(float).tolist()
+    if k == 1:
+        def tup(v):
+            return tuple(tup(w) for w in v) if isinstance(v, list) else v
+        return tup(a.astype(float).tolist())
+    if k == 2:
+        return a.astype(float)
+    if np.all(a == np.rint(a)):
+        return a.astype(np.int64)
+    return a.astype(float)
+
+
 NEIGHBOURS = [[i, j, k] for i in (-1, 0, 1) for j in (-1, 0, 1) for k in (-1, 0, 1) if (i, j, k) != (0, 0, 0)]
 
 
